@@ -37,6 +37,7 @@ type c17Case struct {
 	ErrAt   int       `json:"errat"`  // upstream read ordinal (1-based, over source 0) that fails; 0 = none
 	Spill   int       `json:"spill"`  // sort spill target
 	Canary  int       `json:"canary"` // sort canary rows (0 = default)
+	Slack   int       `json:"slack"`  // destination frames are views with this much spare capacity behind them
 }
 
 var errC17Boom = errors.New("boom-upstream")
@@ -360,11 +361,13 @@ func c17Run(ctx context.Context, c *c17Case) (rec vtr.Rec) {
 	}
 	for i := 0; i < maxReads; i++ {
 		k := c.Reads[i%len(c.Reads)]
-		dst := frame.Make(typ, k, k)
-		c17Fill(dst)
+		// the destination is the first k rows of a frame with c.Slack further rows: a reader may use neither
+		whole := frame.Make(typ, k+c.Slack, k+c.Slack)
+		c17Fill(whole)
+		dst := whole.Slice(0, k)
 		n, err := r.Read(ctx, dst)
 		en := errName(err)
-		rr := vtr.Rec{"k": k, "n": n, "err": en, "dst": c17Rows(dst, k)}
+		rr := vtr.Rec{"k": k, "n": n, "err": en, "dst": c17Rows(whole, k+c.Slack)}
 		reads = append(reads, rr)
 		if n > 0 && n <= k {
 			kept = append(kept, dst)
@@ -461,18 +464,36 @@ func c17Scan(ctx context.Context, c *c17Case) (reads []vtr.Rec) {
 				}
 			}
 			continue
-		case "scanner_arity":
+		case "scanner_arity", "scanner_type":
+			if i < c.Param {
+				// well-formed calls first; the ill-formed one comes after them
+				if c.NCol == 1 {
+					ok = sc.Scan(ctx, &a)
+					got = [][]interface{}{{a}}
+				} else {
+					ok = sc.Scan(ctx, &a, &b)
+					got = [][]interface{}{{a, b}}
+				}
+				if ok {
+					n = 1
+				} else {
+					got = [][]interface{}{c17SentRow(c.NCol, 0)}
+				}
+				break
+			}
+			if c.Kind == "scanner_type" {
+				if c.NCol == 1 {
+					ok = sc.Scan(ctx, &str)
+				} else {
+					ok = sc.Scan(ctx, &a, &str)
+				}
+				got = [][]interface{}{c17SentRow(c.NCol, 0)}
+				break
+			}
 			if c.NCol == 1 {
 				ok = sc.Scan(ctx, &a, &b)
 			} else {
 				ok = sc.Scan(ctx, &a)
-			}
-			got = [][]interface{}{c17SentRow(c.NCol, 0)}
-		case "scanner_type":
-			if c.NCol == 1 {
-				ok = sc.Scan(ctx, &str)
-			} else {
-				ok = sc.Scan(ctx, &a, &str)
 			}
 			got = [][]interface{}{c17SentRow(c.NCol, 0)}
 		}
